@@ -47,6 +47,8 @@ class JobResult(dict):
             self['trunc'].append(list(t) if isinstance(t, tuple) else t)
         if eng.unknowns:
             self['inconclusive'].append(f"{eng.unknowns} solver unknown(s)")
+        if getattr(eng, 'retries', 0):
+            self.count('solver_retries', eng.retries)
 
 
 def _worker(args):
